@@ -448,6 +448,27 @@ def isingl_array(w):
     return np.where(s == 1, -v, v)
 
 
+def fsingl_array(w):
+    """(values, valid): IEEE single words; valid is False for E = 255 (infinities, NaN)."""
+    import numpy as np
+    w = np.ascontiguousarray(w, dtype=np.uint32)
+    return w.view(np.float32).astype(np.float64), ((w >> 23) & 0xFF) != 255
+
+
+def vsingl_array(w):
+    """(values, valid): RP66V1 B.6 words (see vsingl); valid is False for E = 0 with S = 1 (undefined)."""
+    import numpy as np
+    w = w.astype(np.int64)
+    b0, b1, b2, b3 = (w >> 24) & 0xFF, (w >> 16) & 0xFF, (w >> 8) & 0xFF, w & 0xFF
+    s = b1 >> 7
+    e = ((b1 & 0x7F) << 1) | (b0 >> 7)
+    m = ((b0 & 0x7F) << 16) | (b3 << 8) | b2
+    v = np.ldexp(((1 << 22) + m).astype(np.float64), ((e - 128) - 23).astype(np.int32))
+    v = np.where(s == 1, -v, v)
+    v = np.where(e == 0, 0.0, v)
+    return v, ~((e == 0) & (s == 1))
+
+
 # ----------------------------------------------------------------------------------------------------------
 def self_test():
     """Worked examples quoted from the standards, and scalar/array agreement on a small pattern set."""
